@@ -2621,12 +2621,31 @@ impl Planner {
             left_op,
             right_op,
             probe_keys,
-            build_keys,
+            build_keys.clone(),
             PhysicalJoinType::Left,
             output_schema,
         ));
 
-        Ok((operator, columns))
+        // The right side repeats the join variables. In a row without a match those copies are
+        // NULL, and a later lookup by name would find the NULL copy instead of the left side's
+        // value: keep the left columns and only the right columns that are new.
+        if build_keys.is_empty() {
+            return Ok((operator, columns));
+        }
+        let left_count = left_columns.len();
+        let keep: Vec<usize> = (0..left_count)
+            .chain(
+                (0..right_columns.len())
+                    .filter(|idx| !build_keys.contains(idx))
+                    .map(|idx| left_count + idx),
+            )
+            .collect();
+        let kept_columns: Vec<String> = keep.iter().map(|&i| columns[i].clone()).collect();
+        let kept_schema = self.derive_schema_from_columns(&kept_columns);
+        let operator: Box<dyn Operator> =
+            Box::new(ProjectOperator::select_columns(operator, keep, kept_schema));
+
+        Ok((operator, kept_columns))
     }
 
     /// Plans an ANTI JOIN operator (for WHERE NOT EXISTS patterns).
